@@ -297,9 +297,15 @@ func runWriterOps(c *WCase, ops []Op, startEpoch int, failing bool, emit func(WE
 		}
 	}
 	for _, op := range ops {
-		if op.Op == "R" {
+		if op.Op == "R" || op.Op == "S" {
 			epoch++
-			sink = newSink()
+			if op.Op == "S" && !sink.Failed {
+				// Reset onto the SAME destination object (the next member of the same file): what
+				// is in it stays, the new stream starts behind it
+				sink.Base = len(sink.Buf)
+			} else {
+				sink = newSink()
+			}
 			hdr = nil // gzip: Reset restores the default header, as NewWriterLevel does
 			data = epochData(c.Data, epoch).Bytes()
 			pos = 0
@@ -356,9 +362,9 @@ func runWriterOps(c *WCase, ops []Op, startEpoch int, failing bool, emit func(WE
 		ev.Down, ev.After = sink.Failed, sink.After
 		if emit != nil {
 			if project {
-				ev.Ref = projectRef(c.Set.Kind, sink.Buf, data[:pos], dict, hdr)
+				ev.Ref = projectRef(c.Set.Kind, sink.Cur(), data[:pos], dict, hdr)
 				if ev.Ev != "Write" {
-					ev.Std = projectLib("std", c.Set.Kind, sink.Buf, data[:pos], dict, hdr)
+					ev.Std = projectLib("std", c.Set.Kind, sink.Cur(), data[:pos], dict, hdr)
 				}
 				if ev.Ev == "Close" {
 					if c.Set.Impl == "std" {
@@ -366,7 +372,7 @@ func runWriterOps(c *WCase, ops []Op, startEpoch int, failing bool, emit func(WE
 						// Reader makes of its output is not part of that (it is decided by the Reader checks)
 						ev.Fg = ev.Std
 					} else {
-						ev.Fg = projectLib("fastgo", c.Set.Kind, sink.Buf, data[:pos], dict, hdr)
+						ev.Fg = projectLib("fastgo", c.Set.Kind, sink.Cur(), data[:pos], dict, hdr)
 					}
 				}
 			}
@@ -423,7 +429,7 @@ func execWriterCase(c *WCase, arch int, emit func(interface{})) {
 	if c.Cmp != "" {
 		resets := 0
 		for _, o := range c.Ops {
-			if o.Op == "R" {
+			if o.Op == "R" || o.Op == "S" {
 				resets++
 			}
 		}
@@ -431,7 +437,7 @@ func execWriterCase(c *WCase, arch int, emit func(interface{})) {
 		if err != nil {
 			return
 		}
-		emit(WEvent{Ev: "Cmp", Case: c.ID, What: c.Cmp, Equal: bytes.Equal(main.Buf, sh.Buf), La: len(main.Buf), Lb: len(sh.Buf)})
+		emit(WEvent{Ev: "Cmp", Case: c.ID, What: c.Cmp, Equal: bytes.Equal(main.Cur(), sh.Cur()), La: len(main.Cur()), Lb: len(sh.Cur())})
 	}
 }
 
